@@ -56,7 +56,7 @@ package limiter
 //@   maintains[C01,C02] l
 //@   ensures[C02] listener_iff_ok: ret1 <==> ret0 != nil
 //@   ensures[C01] one_gate_decision: ncalls("core.Strategy.TryAcquire") == 1 && callrecv("core.Strategy.TryAcquire", 0) == l.strategy && callarg("core.Strategy.TryAcquire", 0, 0) == ctx && calledUnder("core.Strategy.TryAcquire", 0, l.mu)
-//@   ensures[C01] follows_the_gate: ret1 <==> (callres("core.Strategy.TryAcquire", 0, 1) && callres("core.Strategy.TryAcquire", 0, 0) != nil)
+//@   ensures[C01,C02] follows_the_gate: ret1 <==> (callres("core.Strategy.TryAcquire", 0, 1) && callres("core.Strategy.TryAcquire", 0, 0) != nil)
 //@   ensures[C01,C02] strategy_delta: ret1 ==> l.strategy.busy == old(l.strategy.busy) + 1
 //@   ensures[C02] refused_holds_nothing: !ret1 && !callres("core.Strategy.TryAcquire", 0, 1) ==> l.strategy.busy == old(l.strategy.busy) && *l.inFlight == old(*l.inFlight)
 //@   ensures[C02,C20] gauge: ret1 ==> *l.inFlight == old(*l.inFlight) + 1 && ncalls("atomic.Add") == 1
